@@ -584,6 +584,10 @@ def rule_slab_choice(ctx):
         gs = guards_of(fmo, bi)
         alloc_none = [g for g in gs if g[3][0] == "discr" and any(x[0] == "call" and str(x[1]).endswith("MatrixSlab::alloc") for x in walk(g[3]))]
         others = [g for g in gs if g not in alloc_none]
+        # which greedy entry is used may depend on the representation constants, and the walk over the needle in front
+        # of it may say None: neither makes the fallback more frequent than `the slab was refused`
+        others = [g for g in others if not (g[3][0] in ("const", "constx") and "ASCII" in str(g[3][1]))
+                  and not (g[3][0] == "discr" and any(x[0] == "call" and str(x[1]).endswith("Try>::branch") for x in walk(g[3])))]
         if alloc_none and all(g[2] != [1] for g in alloc_none) and not others:
             ctx.ok(site(fmo, bi), "greedy fallback taken only when the slab allocation is refused")
         else:
